@@ -111,6 +111,13 @@ def run(e: Engine, rep: Report):
              'accepted with a real-looking address, and a field-less line '
              'yields [] whose [0] raises IndexError out of handle())')
     v10(e, rep)
+    rep.rule('V11', 'what handle() gives the wrapped handler is what the '
+             'parser returned or the invalid address: no assignment that '
+             'reaches the wrapped call computes the address from the parsed '
+             'one or replaces it by the address of the connection (an '
+             'UNKNOWN / UNSPEC header - and every header the v2 parser '
+             'reports the same way - would proceed with the proxy\'s own, '
+             'typically trusted, address)')
     rep.floor('V1', 4, 'recv_into sites')
 
 
@@ -797,6 +804,7 @@ def v3(e: Engine, rep: Report):
                       'wrapped handler gets (sock, parsed source address)',
                       'the wrapped handler is called with %s' % a,
                       loc=w.loc(), reason='handle(sock, src_addr)')
+            v11(e, rep, g, w, ctx, where)
     # signature constants
     m = e.p.modules.get(MOD)
 
@@ -1350,3 +1358,42 @@ def v10(e: Engine, rep: Report):
         rep.ok('V10', MOD, 'no split() in the module',
                reason='the module does not take text apart with split',
                nontrivial=False)
+
+
+def v11(e: Engine, rep: Report, g, w, ctx, where):
+    from . import common
+    if len(w.ast.args) != 2 or not isinstance(w.ast.args[1], ast.Name):
+        return
+    nm = w.ast.args[1].id
+    if w.frame is not g.entry.frame:
+        return
+    pth = path_of(w.ast.args[1], w.frame)
+    own = set(ctx.func.params)
+    defs = common.reaching_defs(g, w, pth)
+    rep.ok('V11', where, '%d assignment(s) of `%s` reach the wrapped call'
+           % (len([d for d in defs if d is not None]), nm),
+           reason='each is the parser\'s result or the invalid address',
+           loc=w.loc())
+    for d in defs:
+        if d is None or not isinstance(d.ast, ast.Assign):
+            continue
+        if any(isinstance(t, (ast.Tuple, ast.List)) for t in d.ast.targets):
+            continue
+        v = d.ast.value
+        rep.evaluations += 1
+        if 'invalid_pp_source_address' in ast.unparse(v):
+            continue
+        from_self = any(isinstance(x, ast.Name) and x.id == nm and
+                        isinstance(x.ctx, ast.Load) for x in ast.walk(v))
+        from_conn = isinstance(v, ast.Name) and v.id in own
+        rep.check(not (from_self or from_conn), 'V11', where,
+                  '`%s` hands the parsed address on' % d.text(50),
+                  '`%s` reaches the wrapped handler: the address it gets is '
+                  '%s, not what the header encodes - a well-formed UNKNOWN / '
+                  'UNSPEC header (and a v2 header with a corrupted family '
+                  'byte, which the parser reports the same way) proceeds '
+                  'with an address the header does not carry'
+                  % (d.text(60), 'computed from the parsed one' if from_self
+                     else 'the address of the connection itself'),
+                  loc=d.loc(), reason='not derived from `%s` / the peer '
+                  'address' % nm)
